@@ -10,6 +10,9 @@
 (***************************************************************************)
 EXTENDS Integers, Sequences, FiniteSets
 
+\* "real" = the I2P sizes; "small" = the scaled instance for exhaustive model checking (see Tables)
+CONSTANT Scale
+
 Byte == 0..255
 IsBytes(s) == \A i \in 1..Len(s) : s[i] \in Byte
 
